@@ -574,12 +574,18 @@ fn replay_one(check: &Check, path: &Path) -> i32 {
 pub fn fuzz_one(check: &Check, part_name: &str, data: &[u8]) {
     use std::sync::OnceLock;
     static KNOWN: OnceLock<Vec<Known>> = OnceLock::new();
-    let known = KNOWN.get_or_init(known::load);
+    // libfuzzer-sys installs a panic hook that aborts the process; checks rely on catch_unwind for
+    // panics that are verdicts, so the quiet hook replaces it (after libFuzzer's initialisation).
+    let known = KNOWN.get_or_init(|| {
+        install_quiet_panic_hook();
+        known::load()
+    });
     let part = check.parts.iter().find(|p| p.name == part_name).expect("unknown part");
-    let mut g = Gen::new(data);
-    if let Outcome::Fail(f) = (part.case)(&mut g) {
+    let e = eval(part, data, false);
+    if let Outcome::Fail(f) = e.outcome {
         if !is_known(known, check.id, &f.signature) {
-            panic!("VIOLATION property={} [{}]: {}", check.id, f.signature, f.message);
+            eprintln!("FUZZ-VIOLATION property={} part={} signature=[{}]: {}", check.id, part_name, f.signature, f.message);
+            std::process::abort();
         }
     }
 }
